@@ -389,7 +389,10 @@ impl Prop for C08Prop {
             E::Call(n, _) => n.to_string(),
             _ => canon.clone(),
         };
-        let fail = |what: &str, want: String| Err(Failure::new(format!("complex/{}/{}", what, canon), want, o.show()));
+        // operands below 1e-3 in modulus get their own signature: the library's log-based inverse functions cancel there
+        // (a recorded finding), and that must not hide other failures of the same functions
+        let canon_sig = if zs.iter().any(|z| cpxr::modulus(*z) < 1e-3) { format!("{}/tiny-operand", canon) } else { canon.clone() };
+        let fail = |what: &str, want: String| Err(Failure::new(format!("complex/{}/{}", what, canon_sig), want, o.show()));
         let inverse: Option<(fn(C) -> C, fn(C) -> C)> = match canon.as_str() {
             "asin" => Some((cpxr::csin, cpxr::ccos)),
             "acos" => Some((cpxr::ccos, cpxr::csin)),
